@@ -50,6 +50,15 @@ def specEncPN (i ch n v : Nat) (order : ByteOrder) : Obs :=
   let m := PNMsg.ctor i ch n v
   pnObs m ++ (specPNEncoding m order).flatMap slotObs ++ (specPNEncoding m .msbFirst).flatMap slotObs
 
+/-- `cnpred n`: the three predicates of ControllerNumber + the channel-mode predicate -/
+def modelCnPred (n : Nat) : Obs :=
+  obsOf do
+    let l ← cnLsbOf n
+    .ok [cBool (cnCanBePartOf14 n), cOpt l, cBool (cnIsParameterNumber n), cBool (cnIsChannelMode n)]
+def specCnPred (n : Nat) : Obs :=
+  [cBool (n < 64), (if n < 32 then ((n + 32 : Nat) : Int) else cNone),
+   cBool (n == 6 || n == 38 || (96 ≤ n && n ≤ 101)), cBool (120 ≤ n)]
+
 /-! ### scanner tables -/
 
 structure ScanSt where
